@@ -27,12 +27,16 @@ def unit_text(rnd, big):
     return t
 
 
+CREATE_FAULTS = ['dangling', 'loop', 'notdir', 'toolong', 'procfile']
+
+
 def gen_case(rnd):
     n = rnd.randint(1, 4)
     names = rnd.sample(['a', 'b', 'c', 'web', 'db'], n)
     big = {nm: rnd.random() < 0.3 for nm in names}
     i = rnd.randrange(n)
-    fault = rnd.choice(['devfull', 'dir', 'none', 'outdir', 'fsize', 'fsize'])
+    # create faults in every error kind that needs no privileges (EISDIR, ENOENT, ELOOP, ENOTDIR, ENAMETOOLONG, EACCES/EPERM on /proc)
+    fault = rnd.choice(['devfull', 'dir', 'none', 'outdir', 'fsize', 'fsize'] + CREATE_FAULTS)
     c = dict(names=names, big=big, idx=i, fault=fault)
     if fault == 'fsize':
         # a byte budget per file: the victim is the only large unit, the budget lies between the small services and the victim
@@ -62,6 +66,10 @@ def run(case_rnd):
             os.symlink('/dev/full', os.path.join(out, victim + '.service'))
         elif case['fault'] == 'dir':
             os.makedirs(os.path.join(out, victim + '.service'))
+        elif case['fault'] in CREATE_FAULTS:
+            target = {'dangling': os.path.join(base, 'no-such-dir', 'x.service'), 'loop': victim + '.service', 'notdir': '/dev/null/x.service',
+                      'toolong': os.path.join(base, 'n' * 300), 'procfile': '/proc/version'}[case['fault']]
+            os.symlink(target, os.path.join(out, victim + '.service'))
     rc, so, se = e2e.run_binary(['--no-kmsg-log', out], os.path.join(base, 'src'), fsize_limit=case.get('limit'))
     snap = e2e.snapshot(out) if os.path.isdir(out) else {}
     # what would have been written (piece sizes) from a dry run
@@ -126,7 +134,7 @@ def oracle(ctx):
                 fails.append(f'the output directory that cannot be created is not named in an error: {e2e.error_lines(o["stderr"])}')
             if o['snap']:
                 fails.append('something was written although the output directory could not be created')
-        elif c['fault'] in ('devfull', 'dir', 'fsize'):
+        elif c['fault'] in ['devfull', 'dir', 'fsize'] + CREATE_FAULTS:
             if not any('ERROR' in l and victim in l for l in o['stderr'].split('\n')):
                 fails.append(f'the failed write of {victim} is not logged with its path: {e2e.error_lines(o["stderr"])}')
             if f'default.target.wants/{victim}' in o['snap']:
